@@ -76,6 +76,17 @@ fn block_universal<
             let block = &rows[block_start..];
             let encoded = &mut encoded_buffer[block_index];
 
+            #[cfg(dds_verif)]
+            {
+                let mut event = vec![7_usize];
+                for i in 0..BLOCK_HEIGHT {
+                    for j in 0..BLOCK_WIDTH {
+                        event.push((block[i * width + j][0] * 8192.0) as usize);
+                    }
+                }
+                crate::verif_hooks::block_event(&event);
+            }
+
             encode_block(block, width, &options, encoded);
             report_block()?;
         }
@@ -94,6 +105,13 @@ fn block_universal<
                 row[..block_width].copy_from_slice(partial_row);
                 let last = partial_row.last().copied().unwrap_or_default();
                 row[block_width..].fill(last);
+            }
+
+            #[cfg(dds_verif)]
+            {
+                let mut event = vec![7_usize];
+                event.extend(block_data.iter().map(|p| (p[0] * 8192.0) as usize));
+                crate::verif_hooks::block_event(&event);
             }
 
             let encoded = &mut encoded_buffer[block_index];
